@@ -300,6 +300,9 @@ def run(fx, tier):
     n_w = run_witness(v)
 
     encoder_schema_rules(fx, v, 'C17')
+    # a string reaches utf8_/binary_ (two-byte length prefix) only after its WHOLE size was bounded by 65535 (shared with C16)
+    from c16 import whole_argument_size_rules
+    whole_argument_size_rules(fx, v, 'C17')
     import effect
     effect.run(fx, v)
     v.expect_min('R-TABLE', 100, 'static_assert rows')
